@@ -101,6 +101,13 @@ impl RegexMatcher {
         // As in GNU regex, \` and \' are the beginning and the end of the text in
         // every syntax (Oniguruma only enables them for emacs).
         syntax.enable_operators(SyntaxOperator::SYNTAX_OPERATOR_ESC_GNU_BUF_ANCHOR);
+        // A backslash before an ordinary character stands for that character: \t is
+        // 't', not a tab.
+        syntax.disable_operators(SyntaxOperator::SYNTAX_OPERATOR_ESC_CONTROL_CHARS);
+        if matches!(regex_type, RegexType::Emacs) {
+            // GNU's emacs syntax has no interval operator: \{ and \} are braces.
+            syntax.disable_operators(SyntaxOperator::SYNTAX_OPERATOR_ESC_BRACE_INTERVAL);
+        }
         if matches!(regex_type, RegexType::PosixBasic) {
             // GNU's posix-basic (ed, sed) has \| for alternation; Oniguruma's does not.
             syntax.enable_operators(SyntaxOperator::SYNTAX_OPERATOR_ESC_VBAR_ALT);
